@@ -315,8 +315,31 @@ let run_trace_block () =
   Printf.printf "crash=%s pl=%s mono=%s c13=%s prog=%s final=%s\n" (verdict false) (verdict true) mono c13
     (String.concat "/" (List.map event_s prog_events)) (dump_world wf)
 
+(* lookup <in_max> <iter_max> <skip 0|1> | d1 rows k:p:o:l:c:s,... | loose k:size,... | d2 rows | ks k,k,...
+   -> status  P:k:p:o:l:c:s / L:k:size / M:k  (generator order) *)
+let cmd_lookup args =
+  match List.map String.trim (String.split_on_char '|' args) with
+  | [hd; d1; ls; d2; ks] ->
+      let row s = (match List.map int_of_string (String.split_on_char ':' s) with
+        | [k; p; o; l; c; sz] -> { rkey = n_of_int k; rpack = z_of_int p; roff = nat_of_int o; rlen = nat_of_int l; rcomp = (c = 1); rsize = nat_of_int sz }
+        | _ -> failwith "lookup: bad row") in
+      let rows s = List.map row (split_on ',' s) in
+      let loose = List.map (fun s -> match List.map int_of_string (String.split_on_char ':' s) with
+        | [k; sz] -> (n_of_int k, nat_of_int sz) | _ -> failwith "lookup: bad loose") (split_on ',' ls) in
+      (match List.map int_of_string (split_on ' ' hd) with
+       | [inm; itm; skip] ->
+           let (out, st) = lookup_bulk { in_max = nat_of_int inm; iter_max = nat_of_int itm } (skip = 1) (rows d1) loose (rows d2)
+                             (List.map (fun k -> n_of_int k) (ints ks)) in
+           let f = function
+             | FPacked r -> Printf.sprintf "P:%d:%d:%d:%d:%d:%d" (int_of_n r.rkey) (int_of_z r.rpack) (int_of_nat r.roff) (int_of_nat r.rlen) (if r.rcomp then 1 else 0) (int_of_nat r.rsize)
+             | FLoose (k, sz) -> Printf.sprintf "L:%d:%d" (int_of_n k) (int_of_nat sz)
+             | FMissing k -> Printf.sprintf "M:%d" (int_of_n k) in
+           Printf.printf "%s %s\n" (status_s st) (String.concat "," (List.map f out))
+       | _ -> failwith "lookup: bad header")
+  | _ -> failwith "lookup: bad args"
+
 let () =
-  let extra = ref [("pick", cmd_pick); ("estimate", cmd_estimate); ("plan", cmd_plan); ("segs", cmd_segs); ("por", cmd_por); ("bio", cmd_bio true); ("fio", cmd_bio false); ("zsd", cmd_zsd)] in
+  let extra = ref [("lookup", cmd_lookup); ("pick", cmd_pick); ("estimate", cmd_estimate); ("plan", cmd_plan); ("segs", cmd_segs); ("por", cmd_por); ("bio", cmd_bio true); ("fio", cmd_bio false); ("zsd", cmd_zsd)] in
   try
     while true do
       let line = input_line stdin in
